@@ -168,6 +168,7 @@ func (s *server) set(mode int) {
 
 // event syntax: "call", "hcall<code>", "set<i>=<h|r|s>", "adv<seconds>"
 type world struct {
+	late    []string // calls that returned later than deadline + dial timeout (judged by C09 only)
 	n       int
 	servers []*server
 	sp      *tars.ServantProxy
@@ -188,6 +189,9 @@ type world struct {
 	lastPB      []int64 // time the endpoint was blocked or last probed
 	reachSince  []int64 // time since which the endpoint's server accepts connections
 }
+
+// termMode: the program runs as the registry-mode part of C09 (C15_AS=C09): only call termination is judged
+var termMode bool
 
 func (w *world) now() int64 { return (vm.Now() - w.start) / 1e9 }
 
@@ -213,7 +217,12 @@ func (w *world) apply(ev string) {
 		}
 		var resp requestf.ResponsePacket
 		w.calls++
+		t0 := vm.Now()
 		err := w.sp.TarsInvoke(ctx, 0, "echo", []byte{byte(w.calls)}, nil, nil, &resp)
+		if el := (vm.Now() - t0) / 1e6; el > callTimeoutMs+500+100 {
+			// (C09's business: deadline + dial timeout + one tick of the timer wheel)
+			w.late = append(w.late, fmt.Sprintf("call-returned-after-deadline:registry-mode\nevent %s returned after %d ms, timeout %d ms, dial timeout 500 ms", ev, el, callTimeoutMs))
+		}
 		portS, _ := current.GetServerPortFromContext(ctx)
 		port, _ := strconv.Atoi(portS)
 		i := port - basePort
@@ -501,8 +510,32 @@ func runHistory(n int, hist []string) (w *world) {
 		w.lastProbe[i] = -1000
 	}
 	w.sp = tars.NewServantProxy(comm, "App.Srv.Obj")
+	// horizon: a call that never returns leaves the tickers of the framework running for ever; the history ends
+	// by itself long before this (clock advances + 3 s per call + a minute)
+	horizon := int64(60)
+	for _, ev := range hist {
+		if strings.HasPrefix(ev, "adv") {
+			sec, _ := strconv.Atoi(ev[3:])
+			horizon += int64(sec)
+		} else {
+			horizon += 3
+		}
+	}
+	vm.AddTimer(horizon*1e9, 0, func() {
+		vm.SpawnFromTimer(func() {
+			vm.Log("horizon: the history has not ended after %d s", horizon)
+			vm.Exit(99)
+		})
+	})
 	for _, ev := range hist {
 		w.apply(ev)
+	}
+	if termMode {
+		// quiescence, then nothing of the finished calls is left: in-flight counters, pending-reply tables of all adapters
+		vm.Sleep(3e9)
+		if st := tars.VerifState(w.sp); st.QueueLen != 0 || st.RespEntries != 0 || st.InvokeNum != 0 {
+			w.late = append(w.late, fmt.Sprintf("resources-left-after-calls-returned:registry-mode\nqueueLen=%d pending-reply entries=%d invokeNum=%d over %d adapters", st.QueueLen, st.RespEntries, st.InvokeNum, st.Adapters))
+		}
 	}
 	w.keyCached = w.key()
 	return w
@@ -533,7 +566,9 @@ var longHistories = map[string][]string{
 		"set0=h", "adv30", "adv1", "rew", "adv30", "adv1", "call", "call", "call"},
 	// the registry is unreachable when the proxy is created: the endpoints come from the endpoint cache
 	"cached-refuse-block-probe-recover": {"cached", "set0=r", "call", "call", "call", "call", "call", "call", "call", "call", "call", "call", "adv5", "adv1", "call", "call", "call", "adv30", "set0=h", "adv30", "call", "call", "call", "call"},
-	"hashed":                            {"set1=r", "hcall7", "hcall7", "hcall123456", "hcall7", "hcall99", "hcall7", "hcall7", "hcall99", "hcall7", "hcall7", "adv5", "adv1", "hcall7", "hcall99", "set1=h", "adv30", "hcall7", "hcall99"},
+	// an endpoint is blocked; while it waits for its probe the registry takes it off the active list (and later lists it again)
+	"blocked-then-delisted-probe": {"set0=r", "call", "call", "call", "call", "call", "call", "call", "call", "call", "call", "adv5", "adv1", "call", "call", "set0=h", "adv30", "adv1", "ina0", "call", "call", "call", "call", "adv30", "call", "call", "act0", "call", "call", "call", "call"},
+	"hashed":                      {"set1=r", "hcall7", "hcall7", "hcall123456", "hcall7", "hcall99", "hcall7", "hcall7", "hcall99", "hcall7", "hcall7", "adv5", "adv1", "hcall7", "hcall99", "set1=h", "adv30", "hcall7", "hcall99"},
 }
 
 // callRun: length of the run of "call" events that position p lies strictly inside (0 if it does not).
@@ -583,7 +618,13 @@ func histScenario(n int, hist []string, record func(choices string, o outcome)) 
 		case vm.StPanic:
 			return "panic: " + strings.SplitN(r.PanicMsg, "\n", 2)[0] + "\n" + r.PanicStk
 		default:
+			if termMode {
+				return "call-did-not-return:registry-mode:" + r.Status.String() + "\n" + strings.Join(r.Blocked, ",") + "\n" + r.ObsString()
+			}
 			return "history-did-not-complete:" + r.Status.String() + "\n" + strings.Join(r.Blocked, ",") + "\n" + r.ObsString()
+		}
+		if termMode {
+			return e1.Multi(w.late, r.ObsString())
 		}
 		return e1.Multi(w.bad, r.ObsString())
 	}
@@ -601,6 +642,7 @@ func main() {
 	prop := "C15"
 	if as := os.Getenv("C15_AS"); as != "" {
 		prop = as // the hashed-call histories also serve as the end-to-end part of C14
+		termMode = as == "C09"
 	}
 	run := common.Start(prop, "model_checking")
 	if run.Replay != "" || os.Getenv("E1_WORKER") != "" {
